@@ -15,7 +15,7 @@ func init() {
 
 // storesIn lists rendered (address, value) of the stores of fn.
 type rstore struct {
-	in         *ssa.Store
+	in        *ssa.Store
 	addr, val string
 }
 
@@ -154,18 +154,23 @@ func propC11(c *Check) {
 	} {
 		f := p.MustFn(sl.key)
 		c.touch(f)
-		sets := p.FindCalls(f, `^Slashed\.Set\(`)
-		if len(sets) != 1 {
-			c.Violated("R2", "slash-credited @ "+sl.key, p.Pos(f.Pos()), fmt.Sprintf("%d Slashed.Set sites reason=not-established", len(sets)))
+		// the Slashed.Set may live in a private helper (slash loop extracted): it is rendered in this function's terms
+		dsets := p.FindCallsDeep(f, `^Slashed\.Set\(`)
+		if len(dsets) != 1 {
+			c.Violated("R2", "slash-credited @ "+sl.key, p.Pos(f.Pos()), fmt.Sprintf("%d Slashed.Set sites reason=not-established", len(dsets)))
 			continue
 		}
-		setStr := noOrd(p.CallStr(sets[0]))
-		m := regexp.MustCompile(`^Slashed\.Set\((.*)\.Denom, Int\.Add\(φ\{Slashed\.Get\((.*)\.Denom\)#0\|sdkmath\.ZeroInt\(\)\}, φ\{LegacyDec\.TruncateInt\(LegacyDec\.Mul\(sdkmath\.LegacyNewDecFromInt\((.*)\.Amount\), (\$\d)\.(\w+)\)\)\|sdkmath\.NewIntFromBigIntMut\(Int\.BigInt\((.*)\.Amount\)\)\}\)\)$`).FindStringSubmatch(setStr)
+		sets := []ssa.Instruction{dsets[0].Site0()}
+		setStr := noOrd(dsets[0].Str)
+		m := regexp.MustCompile(`^Slashed\.Set\((.*)\.Denom, Int\.Add\(φ\{Slashed\.Get\((.*)\.Denom\)#0\|sdkmath\.ZeroInt\(\)\}, φ\{LegacyDec\.TruncateInt\(LegacyDec\.Mul\(sdkmath\.LegacyNewDecFromInt\((.*)\.Amount\), (\$\d)\.(\w+)\)\)\|(?:sdkmath\.NewIntFromBigIntMut\(Int\.BigInt\((.*)\.Amount\)\)|(.*)\.Amount)\}\)\)$`).FindStringSubmatch(setStr)
 		if m == nil {
 			c.Violated("R2", "slash-credited @ "+sl.key, p.InstrPos(sets[0]), "Slashed[denom] is not set to previous total + (truncated fraction of the holding, or all of it): "+setStr)
 			continue
 		}
 		L := m[1]
+		if m[6] == "" {
+			m[6] = m[7] // the whole amount taken as the coin's Amount itself (a copy of the same value)
+		}
 		if m[2] != L || m[3] != L || m[6] != L || !strings.HasSuffix(L, ".Locking[φ{(1 + @)|0}]") {
 			c.Violated("R2", "slash-credited @ "+sl.key, p.InstrPos(sets[0]), "slash amounts refer to different coins: "+setStr)
 			continue
@@ -195,12 +200,12 @@ func propC11(c *Check) {
 		}
 		// "everything" is taken exactly when the truncated slash is zero, and then nothing is kept
 		c.RequireFact(f, "R2", "every-coin-slashed", `^\(len\(.*\.Locking\) <= φ\{\(1 \+ @\)\|0\}\)$`, instrSet(holdStore), "holding replaced")
-		if skip, path := loopIterationCanSkip(f, sets[0]); skip {
+		if skip, path := p.deepIterationCanSkip(f, dsets[0]); skip {
 			c.Violated("R2", "slash-credited-every-coin @ "+sl.key, p.InstrPos(sets[0]), "a coin can be taken from the holding without being credited to Slashed", p.describePath(path)...)
 		} else {
 			c.Held("R2", "slash-credited-every-coin @ "+sl.key, p.InstrPos(sets[0]), "")
 		}
-		zeroEdge := p.MatchEdges(f, regexp.MustCompile(`^Int\.IsZero\(LegacyDec\.TruncateInt\(`))
+		zeroEdge := p.MatchEdgesDeep(f, regexp.MustCompile(`^Int\.IsZero\(LegacyDec\.TruncateInt\(`))
 		if len(zeroEdge) == 1 {
 			c.Held("R2", "dust-branch @ "+sl.key, p.InstrPos(zeroEdge[0].Block.Instrs[len(zeroEdge[0].Block.Instrs)-1]), "whole amount slashed iff the truncated fraction is zero")
 		} else {
@@ -234,7 +239,7 @@ func propC12(c *Check) {
 		mr := regexp.MustCompile(`^Int\.Sub\((mix\{.*\}), (sdkmath\.NewIntFromBigInt\(.*\))\)$`).FindStringSubmatch(remain)
 		if mg != nil && mr != nil && mg[1] == mr[2] {
 			c.Held("R1", "moved-amount-paired @ "+FuncKey(urp), p.Pos(urp.Pos()), "pool.Goat += r; pool.Remain −= r (same r)")
-			if regexp.MustCompile(`^sdkmath\.NewIntFromBigInt\(φ\{Int\.BigInt\(`+regexp.QuoteMeta(mr[1])+`\)\|big\.NewInt\(Params\.Get\(\)#0\.InitialBlockReward\)\}\)$`).MatchString(mg[1]) {
+			if regexp.MustCompile(`^sdkmath\.NewIntFromBigInt\(φ\{Int\.BigInt\(` + regexp.QuoteMeta(mr[1]) + `\)\|big\.NewInt\(Params\.Get\(\)#0\.InitialBlockReward\)\}\)$`).MatchString(mg[1]) {
 				c.Held("R1", "moved=min(remaining,reward) shape @ "+FuncKey(urp), p.Pos(urp.Pos()), mg[1])
 			} else {
 				c.Violated("R1", "moved=min(remaining,reward) shape @ "+FuncKey(urp), p.Pos(urp.Pos()), "moved amount is "+mg[1])
